@@ -723,7 +723,11 @@ Qed.
     domain of its own input:  NthRoot (NthPow x 2) 2  ->  NthPow (NthRoot x 2) 2  ->  x *)
 Theorem root_of_power_two_step_value_refuted :
   exists (e0 e1 : expr R) (x : name) (rho : env),
-    reduce_nth_root_of_mth_power e0 = Some e1 /    reduce_nth_power_of_mth_root e1 = Some (Var x) /    wfR e0 /\ InDomain rho e0 /    denote rho e0 = 3 /\ denote rho (Var x) = -3 /    denote rho (Var x) <> denote rho e0.
+    reduce_nth_root_of_mth_power e0 = Some e1 /\
+    reduce_nth_power_of_mth_root e1 = Some (Var x) /\
+    wfR e0 /\ InDomain rho e0 /\
+    denote rho e0 = 3 /\ denote rho (Var x) = -3 /\
+    denote rho (Var x) <> denote rho e0.
 Proof.
   exists (NthRoot (NthPow (Var 1%positive) 2) 2), (NthPow (NthRoot (Var 1%positive) 2) 2),
          1%positive, (fun _ => -3).
